@@ -3,9 +3,11 @@
    statement is pinned here, and its assumptions are printed for the audit.
 
    [reach strict c cap ops b outs] : running [ops] on SendBuf::with_capacity(cap) (content [c]) hits no
-   failed assertion and ends in state [b] with results [outs]; ranges given to ack / loss are non-empty
-   (class of finding F29 otherwise) and, when [strict], forget_sent_state is only used while no byte
-   has been released (class of finding F28 otherwise).  [colour_at m i] is the abstraction function. *)
+   failed assertion and ends in state [b] with results [outs]; [reach false] has no other side condition
+   (it is exactly "sb_execs ends in a live state", see c09_pick_nonempty); when [strict],
+   forget_sent_state is only used while no byte has been released (class of finding F28 otherwise).
+   Empty ranges (FIN-only frames) given to ack / loss are ignored since the fix of finding F29.
+   [colour_at m i] is the abstraction function. *)
 From Coq Require Import List NArith ZArith.
 From GQ Require Import Lib.Base Model.SendBuf Proofs.SendBuf.
 Import ListNotations.
@@ -96,7 +98,7 @@ Theorem c09_fresh_once_suffix : forall c cap ops b outs, reach false c cap ops b
 Proof. exact p_c09_pending_suffix. Qed.
 
 Theorem c09_fresh_once_no_repending : forall c cap ops b outs o b' out i col,
-  reach false c cap ops b outs -> class_okb false b o = true -> sb_exec c b o = (Some b', out) ->
+  reach false c cap ops b outs -> sb_exec c b o = (Some b', out) ->
   o <> SbForget -> colour_at (st b) i = Some col -> col <> Pending ->
   exists col', colour_at (st b') i = Some col' /\ col' <> Pending.
 Proof. exact p_c09_no_repending. Qed.
@@ -111,7 +113,7 @@ Theorem c09_fresh_once_tiles : forall c cap ops b outs pred flow b' s e d,
 Proof. exact p_c09_fresh_at_sent. Qed.
 
 Theorem c09_fresh_once_sent_mono : forall c cap ops b outs o b' out,
-  reach false c cap ops b outs -> class_okb false b o = true -> sb_exec c b o = (Some b', out) ->
+  reach false c cap ops b outs -> sb_exec c b o = (Some b', out) ->
   o <> SbForget -> sent b <= sent b'.
 Proof. exact p_c09_sent_mono. Qed.
 
@@ -125,12 +127,35 @@ Theorem c09_complete : forall c cap ops b outs, reach true c cap ops b outs ->
   (is_all_rcvd b = true <-> forall i, i < written b -> colour_at (st b) i = Some Recved).
 Proof. exact p_c09_complete. Qed.
 
-(* ---- outside the classes the full-strength statements are false (findings F29, F28) ---- *)
+(* every successful pick has a non-empty range, over ALL operation lists (finding F29 is fixed:
+   this was refuted by an empty loss range before) *)
+Theorem c09_pick_nonempty : forall c cap ops b outs pred flow b' s e fr d,
+  sb_execs c (Some (with_capacity cap)) ops = (Some b, outs) ->
+  (forall o a, pred o = Some a -> 1 <= a) ->
+  pick_up c b pred flow = UpOk b' s e fr d -> s < e.
+Proof. exact p_c09_pick_nonempty. Qed.
 
-Theorem c09_pick_nonempty_refuted :
-  exists ops b outs b', sb_execs content (Some (with_capacity 6)) ops = (Some b, outs) /\
-    pick_up content b (fun _ => Some 3) 3 = UpOk b' 5 5 false [].
-Proof. exact p_c09_pick_nonempty_refuted. Qed.
+Theorem c09_empty_range_noop : forall b s e, e <= s ->
+  on_data_acked b s e = Some b /\ may_loss_data b s e = Some b.
+Proof. exact p_c09_empty_range_noop. Qed.
+
+Example c09_f29_regression :
+  exists b outs, sb_execs content (Some (with_capacity 6)) [SbWrite 5; SbPick 5 5 100; SbLoss 5 5; SbAck 5 5; SbLoss 7 2] = (Some b, outs) /\
+    runs (st b) = [(0, Flighting)] /\
+    pick_up content b (fun _ => Some 3) 3 = UpErr true false false.
+Proof. exact p_c09_f29_regression. Qed.
+
+(* forget_sent_state at base = 0 (its only reachable use) stays in the strict class: retain / pick /
+   complete keep holding afterwards, and the whole written data is still held *)
+Theorem c09_forget_safe_at_base0 : forall c cap ops b outs,
+  reach true c cap ops b outs -> base b = 0 ->
+  reach true c cap (ops ++ [SbForget]) (forget_sent_state b) (outs ++ [OUnit]) /\
+  written (forget_sent_state b) = written b /\ base (forget_sent_state b) = 0 /\
+  (forall i, colour_at (st (forget_sent_state b)) i = None) /\
+  (forall s e, e <= written b -> data_of c (forget_sent_state b) s e = slice c s (e - s)).
+Proof. exact p_c09_forget_safe_at_base0. Qed.
+
+(* ---- outside the strict class the data statement is false (finding F28, latent) ---- *)
 
 Theorem c09_pick_data_refuted :
   exists ops b outs b' d, sb_execs content (Some (with_capacity 4)) ops = (Some b, outs) /\
@@ -138,12 +163,12 @@ Theorem c09_pick_data_refuted :
 Proof. exact p_c09_pick_data_refuted. Qed.
 
 (* non-vacuity: a history with partial picks, a flow-limited pick, loss, ack after loss, a repeated
-   and a misaligned ack, loss after ack, resend_flighting, a window extension and a refused pick is
+   and a misaligned ack, loss after ack, empty ranges, resend_flighting, a window extension and a refused pick is
    in the strict class, ends with everything acknowledged, and its fresh lengths add up to sent() *)
 Example c09_nonvacuous :
   let ops := [SbWrite 12; SbPick 4 8 100; SbPick 3 2 100; SbLoss 0 4; SbAck 1 3; SbAck 1 3; SbLoss 2 5;
               SbPick 9 9 100; SbPick 1 0 100; SbResend; SbPick 2 9 100; SbExtend 20; SbPick 20 20 100;
-              SbPick 20 20 100; SbPick 20 20 100; SbPick 20 20 100; SbAck 3 12; SbLoss 0 2; SbAck 0 1; SbWrite 2; SbPick 7 7 100;
+              SbPick 20 20 100; SbPick 20 20 100; SbPick 20 20 100; SbAck 3 12; SbLoss 12 12; SbAck 7 7; SbLoss 0 2; SbAck 0 1; SbWrite 2; SbPick 7 7 100;
               SbAck 0 14] in
   match run_ok true content (with_capacity 10) ops with
   | Some (b, outs) =>
@@ -171,6 +196,9 @@ Print Assumptions c09_fresh_once_tiles.
 Print Assumptions c09_fresh_once_sent_mono.
 Print Assumptions c09_lost_reoffered.
 Print Assumptions c09_complete.
-Print Assumptions c09_pick_nonempty_refuted.
+Print Assumptions c09_pick_nonempty.
+Print Assumptions c09_empty_range_noop.
+Print Assumptions c09_f29_regression.
+Print Assumptions c09_forget_safe_at_base0.
 Print Assumptions c09_pick_data_refuted.
 Print Assumptions c09_nonvacuous.
